@@ -21,17 +21,28 @@ FIXED = int(os.environ.get("VERIF_C17_FIXED", "1"))
 COQ_TARGETS = ["Props/C17.vo", "Extract/ExtractC17.vo"] + (["Props/C17Now.vo"] if FIXED else [])
 DRIVERS = ["c17"]
 
-# C17-F9 (remap_columns integer_sources on a float64 column WITHOUT missing cells is not converted: '1.0') is a
-# pandas-representation effect outside the model; VERIF_C17_FIXED_F9=1 once fix-F9.diff is in the tree under test.
-FIXED_F9 = int(os.environ.get("VERIF_C17_FIXED_F9", "1"))   # fix commit 0437d48 is in /repo
+# C17-F9, repaired by fix commit 0437d48 (in /repo): remap_columns integer_sources on a float64 column WITHOUT missing
+# cells was not converted ('1.0').  A pandas-representation effect outside the model (no switch).  FIXED_F9=0 is only
+# for checking a tree from before 0437d48: the former class is then recognised and not compared with the model.
+FIXED_F9 = int(os.environ.get("VERIF_C17_FIXED_F9", "1"))
 
-# C17-F10 (factor_column flags n/a rows for the factor value "nan": str(NaN) == "nan").  The Coq model follows the
-# code as it is (cell_str CNa = "nan", theorem C17_factor_na_is_zero states the exception); VERIF_C17_FIXED_F10=1 once
-# fix-F10.diff is in the tree under test -- the class is then judged by the oracle only (the model has no switch).
-FIXED_F10 = int(os.environ.get("VERIF_C17_FIXED_F10", "1"))   # fix commit 67be5b4 is in /repo
+# C17-F10, repaired by fix commit 67be5b4 (in /repo): factor_column flagged n/a rows for the factor value "nan"
+# (str(NaN) == "nan").  The model has the switch fx_nan: FIXED_F10=1 (default) compares the current behaviour
+# (a missing cell equals no factor value), FIXED_F10=0 the behaviour before 67be5b4.
+FIXED_F10 = int(os.environ.get("VERIF_C17_FIXED_F10", "1"))
 
-FIX_KEYS = ("reorder", "factor", "match", "copy", "gaps", "disjoint")
+FIX_KEYS = ("reorder", "factor", "match", "copy", "gaps", "disjoint", "nan")
 IMPL_FIXES = {k: bool(FIXED) for k in FIX_KEYS}
+IMPL_FIXES["nan"] = bool(FIXED_F10)
+
+# former finding classes of the two commits above (behaviour BEFORE the commit), consulted only with the switch at 0
+LEGACY_F9_F10 = {
+ "C17-F9": {"what": "[behaviour before fix commit 0437d48] remap_columns integer_sources naming a float64 column without "
+                    "missing cells is not converted: key text '1.0', destinations n/a",
+            "class": "f9_class"},
+ "C17-F10": {"what": "[behaviour before fix commit 67be5b4] factor_column: the factor value 'nan' also flags n/a rows",
+             "class": "f10_class"},
+}
 
 # the defects repaired by the fix commits above (behaviour BEFORE the commit given in each entry); only
 # consulted with FIXED=0
@@ -632,7 +643,7 @@ def merge_na_risk(ops, t):
 
 
 def f9_class(ops, t):
-    """Class of C17-F9: a remap_columns operation whose integer_sources name a column that the input frame holds as
+    """Class of the former finding C17-F9 (repaired by 0437d48): a remap_columns operation whose integer_sources name a column that the input frame holds as
     float64 and that has NO missing cell (so replace(NaN, 'n/a') leaves it float64 and the integers assigned into it
     are cast back to float)."""
     fl = set(t.get("float_cols", []))
@@ -647,7 +658,7 @@ def f9_class(ops, t):
 
 
 def f10_class(ops, t):
-    """Class of C17-F10: a factor_column operation one of whose factor values (given, or the default = the distinct
+    """Class of the former finding C17-F10 (repaired by 67be5b4): a factor_column operation one of whose factor values (given, or the default = the distinct
     values of the column) is the text "nan", on a column that also has n/a cells."""
     for i, o in enumerate(ops):
         if o["operation"] != "factor_column":
@@ -852,9 +863,7 @@ def compare_model(case, r, m):
         if merge_na_risk(case["ops"], case["tables"][k]):
             continue
         if not FIXED_F9 and f9_class(case["ops"], case["tables"][k]):
-            continue                 # float64 representation effect (known finding C17-F9), not in the model
-        if FIXED_F10 and f10_class(case["ops"], case["tables"][k]):
-            continue                 # the model follows the code before fix-F10 (cell_str CNa = "nan")
+            continue                 # tree before 0437d48: float64 representation effect, not in the model
         if not FIXED and "exn" in out and classify_crash(case["ops"], out) == "C17-F5":
             return None              # pandas/hash-seed effect (known finding), deliberately not in the model
         if mo[0] == "exn":
@@ -1464,7 +1473,7 @@ def remap_int_cases(rng, n):
         t = {"cols": cols, "rows": rows}
         if use_float:
             # float64 + NaN is how pandas holds an integer column that has missing cells; a float64 column without
-            # missing cells is the (rarer) class of C17-F9
+            # missing cells is the (rarer) class of the former finding C17-F9 (repaired by 0437d48)
             t["float_cols"] = [c for c in kcols if any(r[cols.index(c)] == NA for r in rows) or rng.random() < 0.1]
         src = list(kcols)
         if extra and "b" in extra and rng.random() < 0.3:
@@ -1501,6 +1510,38 @@ def remap_int_cases(rng, n):
                                  {"cols": cols, "rows": rows}))
         tables = [t] if rng.random() < 0.7 else [t, t]
         out.append({"ops": ops, "tables": tables, "expect_valid": spec_valid(ops), "kind": "remap-integer-sources"})
+    return out
+
+
+def factor_na_cases(rng, n):
+    """factor_column on columns that hold n/a cells next to texts that LOOK like a missing value (nan, NaN, None,
+    NA, null): given factor values containing such a text, or the default values.  Documented meaning: an n/a cell
+    equals no factor value."""
+    out = []
+    for _ in range(n):
+        cols = rng.sample(["a", "b", "c", "d"], rng.randint(2, 3))
+        look = ["nan", "nan", "NaN", "None", "NA", "null", "x", "stop"]
+        rows = [[rng.choice(look + [NA, NA]) for _ in cols] for _ in range(rng.randint(3, 6))]
+        c = rng.choice(cols)
+        rows[0][cols.index(c)] = NA
+        rows[1][cols.index(c)] = "nan"
+        rng.shuffle(rows)
+        p = {"column_name": c}
+        if rng.random() < 0.6:
+            vs = rng.sample(["nan", "NaN", "None", "x", "NA"], rng.randint(1, 3))
+            if "nan" not in vs and rng.random() < 0.7:
+                vs.append("nan")
+            p["factor_values"] = vs
+            if rng.random() < 0.5:
+                p["factor_names"] = rng.sample(NEWCOLS + ["h", "k"], len(vs))
+        t = {"cols": cols, "rows": rows}
+        raw = None
+        if rng.random() < 0.3:
+            raw = {"cols": cols, "rows": [[x for x in r] for r in rows]}
+        case = {"ops": [op("factor_column", **p)], "tables": [t], "expect_valid": True, "kind": "factor-na-lookalikes"}
+        if raw:
+            case["file_tables"] = [raw]
+        out.append(case)
     return out
 
 
@@ -1633,10 +1674,10 @@ def corpus():
         {"ops": [op("merge_consecutive", column_name="b", event_code="x", set_durations=True, ignore_missing=True,
                     match_columns=[])],
          "tables": [{"cols": ["b", "onset", "duration"], "rows": [["x", 3, NA], ["x", 1, 1], ["stop", NA, 2]]}]},
-        # C17-F10: the factor value "nan" also flags n/a rows
+        # former finding C17-F10 (repaired by 67be5b4): the factor value "nan" must not flag n/a rows
         {"ops": [op("factor_column", column_name="a", factor_values=["nan", "x"], factor_names=["e", "f"])],
          "tables": [{"cols": ["a", "b"], "rows": [["nan", "1"], [NA, "2"], ["x", "3"]]}]},
-        # C17-F9: integer_sources on a float64 column without missing cells
+        # former finding C17-F9 (repaired by 0437d48): integer_sources on a float64 column without missing cells
         {"ops": [op("remap_columns", source_columns=["a"], destination_columns=["e"], map_list=[[1, "one"], [2, "two"]],
                     ignore_missing=True, integer_sources=["a"])],
          "tables": [{"cols": ["a", "b"], "rows": [[1, "x"], [2, "y"]], "float_cols": ["a"]}]},
@@ -1687,6 +1728,10 @@ def run(tier, seed, res, model_ok=True, proof_ok=True):
     rng = random.Random(seed)
     if not FIXED:
         res.known_ids = dict(getattr(res, "known_ids", {}), **LEGACY_FINDINGS)
+    if not FIXED_F9:
+        res.known_ids = dict(getattr(res, "known_ids", {}), **{"C17-F9": LEGACY_F9_F10["C17-F9"]})
+    if not FIXED_F10:
+        res.known_ids = dict(getattr(res, "known_ids", {}), **{"C17-F10": LEGACY_F9_F10["C17-F10"]})
     per = 10 if tier == "quick" else 60
     nrand = 1600 if tier == "quick" else 22000
     nbad = 300 if tier == "quick" else 3000
@@ -1701,6 +1746,7 @@ def run(tier, seed, res, model_ok=True, proof_ok=True):
         + chain_cases(rng, 5 if tier == "quick" else 40, 200 if tier == "quick" else 3000) \
         + remap_cases(rng, 250 if tier == "quick" else 3000) \
         + remap_int_cases(rng, 200 if tier == "quick" else 2500) \
+        + factor_na_cases(rng, 80 if tier == "quick" else 1000) \
         + file_cases(rng, 250 if tier == "quick" else 3000) + odd_name_cases(rng, 120 if tier == "quick" else 1500) \
         + malformed_key_cases(rng, 300 if tier == "quick" else 4000)
     with Pool(int(C.JOBS)) as pool:
